@@ -6,8 +6,8 @@
 package sum
 
 import (
-	"math/big"
 	"fmt"
+	"math/big"
 	"testing"
 
 	"github.com/cloudflare/circl/internal/zzverif/lib"
@@ -35,12 +35,12 @@ func TestVerifC19SoundnessSum(t *testing.T) {
 	maxes := []uint64{1, 2, 3, 4, 5, 6, 7, 255, 256, 1337, 1<<32 - 1, 1 << 32, 1 << 62, 1<<63 - 2, 1<<63 - 1,
 		// 64 entries per half: 2^bits >= p
 		1 << 63, 1<<63 + 1, 3 << 62, vc19P - 2, vc19P - 1, vc19P, vc19P + 1, ^uint64(0) - 1, ^uint64(0)}
-	shares := []uint8{2, 3, 5}
+	shares := []uint8{2, 3, 5, 9}
 	if lib.Thorough() {
-		maxes = append(maxes, 8, 100, 65535, 65536, 1<<48 + 5, 1<<62 - 1, 1<<62 + 1, 1<<63 + 1<<62 + 12345, vc19P - 3)
+		maxes = append(maxes, 8, 100, 65535, 65536, 1<<48+5, 1<<62-1, 1<<62+1, 1<<63+1<<62+12345, vc19P-3)
 		shares = append(shares, 4, 16, 255)
 	}
-	reps := lib.Scale(2, 6)
+	reps := lib.Scale(4, 8)
 	type cs struct {
 		max uint64
 		n   uint8
@@ -49,7 +49,13 @@ func TestVerifC19SoundnessSum(t *testing.T) {
 	var cases []cs
 	for _, m := range maxes {
 		for _, n := range shares {
-			for k := 0; k < reps; k++ {
+			rp := reps
+			if n > 16 {
+				rp = 1 // cost grows linearly with the number of aggregators
+			} else if n > 5 {
+				rp = lib.Scale(1, 2)
+			}
+			for k := 0; k < rp; k++ {
 				cases = append(cases, cs{m, n, k})
 			}
 		}
@@ -64,7 +70,7 @@ func TestVerifC19SoundnessSum(t *testing.T) {
 				lib.Count("newFlpSum-rejects-64-bit-bound")
 				return
 			}
-			lib.Violation("C19:constructor-rejects-admissible:sum.New", vc19Mon, lib.D("max", c.max, "err", err))
+			lib.Violation("C19:constructor-rejects-admissible:sum.New", vc19Mon, lib.D("max", fmt.Sprint(c.max), "err", err))
 			return
 		}
 		spec := drv.SpecSum(c.max, ctx)
@@ -83,7 +89,7 @@ func TestVerifC19SoundnessSum(t *testing.T) {
 					return "", nil
 				}
 				return "C19:constructor-accepts-degenerate:sum.New:max-too-large", lib.D(
-					"max_measurement", c.max,
+					"max_measurement", fmt.Sprint(c.max),
 					"reasoning", "bits = bitlen(max) = 64, so 2^bits >= p = 2^64-2^32+1 (draft-13 7.4.2 requires 2^bits < p and raises "+
 						"'bound exceeds field modulus'): both halves of the encoding are joined modulo p, so for a > max the bit vector "+
 						"b = a + offset - p satisfies the range relation a + offset - b = 0 in the field. The report was produced by an "+
